@@ -18,7 +18,9 @@ from robotpy_ext.misc import crc7 as mod  # noqa: E402
 import array  # noqa: E402
 
 FORMS = {"bytes": bytes, "list": list, "bytearray": bytearray, "tuple": tuple, "memoryview": lambda p: memoryview(bytes(p)),
-         "array": lambda p: array.array("B", p)}
+         "array": lambda p: array.array("B", p),
+         # byte VALUES held in wider items: still a sequence of bytes
+         "arrayH": lambda p: array.array("H", p), "arrayq": lambda p: array.array("q", p)}
 
 
 def aborted_call(rng):
@@ -80,6 +82,36 @@ def main():
             for b in range(256):
                 traces.append(trace(tid, [first[c], b]))
                 tid += 1
+    elif a.mode == "all2":
+        # every two-byte message, as bytes / bytearray alternately (only the whole message is observed)
+        for hi in range(256):
+            for lo in range(256):
+                data = bytes([hi, lo]) if (hi + lo) % 2 else bytearray([hi, lo])
+                try:
+                    c = mod.crc7(data)
+                    if type(c) is not int:
+                        c = -2
+                except Exception:
+                    c = -1
+                traces.append({"id": a.first_id + hi * 256 + lo, "shape": {}, "steps": [
+                    {"in": {"e": "byte", "b": hi}, "out": {"c": -9}}, {"in": {"e": "byte", "b": lo}, "out": {"c": c}}]})
+    elif a.mode == "suffix":
+        # messages that end like text frames / padding: CR LF, LF, NUL, 0xFF ..., whole message observed only
+        rng = random.Random(a.seed)
+        tid = a.first_id
+        for suf in ([13, 10], [10], [13], [0], [0, 0], [255], [255, 255], [10, 13], [32], [0x7E], [13, 10, 13, 10]):
+            for n in (0, 1, 2, 5, 17, 64):
+                for kind in (bytes, bytearray, list, tuple):
+                    msg = [rng.randrange(256) for _ in range(n)] + suf
+                    try:
+                        c = mod.crc7(kind(msg))
+                        if type(c) is not int:
+                            c = -2
+                    except Exception:
+                        c = -1
+                    traces.append({"id": tid, "shape": {}, "steps": [
+                        {"in": {"e": "byte", "b": b}, "out": {"c": c if i == len(msg) - 1 else -9}} for i, b in enumerate(msg)]})
+                    tid += 1
     elif a.mode == "inplace":
         # one mutable buffer checksummed, modified in place (same length) and checksummed again; only the
         # checksum of the whole buffer is observed (earlier steps carry -9 = not observed)
